@@ -162,6 +162,7 @@ def row_words(text, row=15):
         for k, piece in enumerate(text.split("^")):
             out += ([C.pac(row)] if k else []) + row_words(piece, row)
         return out
+    text = text.lstrip("/")
     if "\b" in text:
         out = []
         for k, piece in enumerate(text.split("\b")):
@@ -178,10 +179,15 @@ def row_words(text, row=15):
     return ws
 
 
+def pac_for(row, text):
+    """the row's preamble address code: an italic one when the row text is marked with a leading '/'"""
+    return C.pac(row, 0, italics=True) if text.startswith("/") else C.pac(row)
+
+
 def cells(t):
     """columns a row occupies.  A mid-row code is one cell; where it is followed by a padding word ('~_') the count is
     exact, otherwise such rows are chosen well above / below 32 and the cell is not counted"""
-    t = t.replace("^", "")
+    t = t.lstrip("/").replace("^", "").rstrip(" ")        # (trailing blanks are not part of the line)
     while "\b" in t:                         # a backspace erases the character before it
         k = t.index("\b")
         t = t[:max(k - 1, 0)] + t[k + 1:]
@@ -192,7 +198,7 @@ def popon(rows, tc, cr=False):
     """one pop-on caption with the given (row number, text) rows, shown with EOC; one line of SCC"""
     ws = [C.ctrl("ENM"), C.ctrl("RCL")]
     for r, text in rows:
-        ws.append(C.pac(r))
+        ws.append(pac_for(r, text))
         ws += row_words(text, r)
         if cr:
             ws.append(C.ctrl("CR"))
@@ -213,7 +219,7 @@ def stream(mode, rowsets, terminated=True, cr=False):
     elif mode == "roll":
         for rows in rowsets:
             for r, text in rows:
-                lines.append((C.timecode(t), [C.ctrl("RU2"), C.ctrl("CR"), C.pac(15)] + row_words(text, 15)))
+                lines.append((C.timecode(t), [C.ctrl("RU2"), C.ctrl("CR"), pac_for(15, text)] + row_words(text, 15)))
                 t += 90
         if terminated:
             lines.append((C.timecode(t), [C.ctrl("CR")]))
@@ -221,7 +227,7 @@ def stream(mode, rowsets, terminated=True, cr=False):
         for rows in rowsets:
             ws = [C.ctrl("RDC")]
             for r, text in rows:
-                ws += [C.pac(r)] + row_words(text, r) + ([C.ctrl("CR")] if cr else [])
+                ws += [pac_for(r, text)] + row_words(text, r) + ([C.ctrl("CR")] if cr else [])
             lines.append((C.timecode(t), ws))
             t += 90
         if terminated:
@@ -339,6 +345,19 @@ def bounded(ctx, b):
         cases.append((mode, True, [[(14, ROWS_TEXT[:32]), (15, "~" + ROWS_TEXT[:10])]]))
         cases.append((mode, True, [[(14, ROWS_TEXT[:32]), (15, "~" + ROWS_TEXT[:10])]], False, True))
         cases.append((mode, True, [[(13, ROWS_TEXT[:31]), (14, "~" + ROWS_TEXT[:31]), (15, ROWS_TEXT[:5])]]))
+        # the outcome does not depend on the order in which the rows of one screen are sent: a full row and an italic
+        # row elsewhere on the screen, a full row with a trailing blank and a short row - in both orders
+        for rows in ([(5, ROWS_TEXT[:32]), (1, "~HELLO")], [(1, "~HELLO"), (5, ROWS_TEXT[:32])],
+                     [(5, ROWS_TEXT[:32] + " "), (1, "HELLO")], [(1, "HELLO"), (5, ROWS_TEXT[:32] + " ")],
+                     [(9, ROWS_TEXT[:33] + "  "), (3, "~X")], [(3, "~X"), (9, ROWS_TEXT[:33] + "  ")],
+                     [(11, ROWS_TEXT[:31] + "  "), (2, "~" + ROWS_TEXT[:31]), (7, ROWS_TEXT[:32])],
+                     [(5, "~" + ROWS_TEXT[:31]), (1, "~HELLO")], [(1, "~HELLO"), (5, "~" + ROWS_TEXT[:31])],
+                     [(9, "~" + ROWS_TEXT[:31]), (3, "~" + ROWS_TEXT[:31]), (14, "~OK")],
+                     # ... an italic row (italic preamble) that fills the screen, then a row elsewhere that opens with a mid-row code
+                     [(5, "/" + ROWS_TEXT[:32]), (1, "~HELLO")], [(1, "~HELLO"), (5, "/" + ROWS_TEXT[:32])],
+                     [(5, "/" + ROWS_TEXT[:32]), (9, "/" + ROWS_TEXT[:32]), (1, "~X")]):
+            cases.append((mode, True, [rows]))
+            cases.append((mode, False, [rows], False, True))
         # every structured case once more with doubled control codes
         cases.append((mode, True, [[(1, ROWS_TEXT[:33]), (5, ROWS_TEXT[:5])]], False, True))
         cases.append((mode, False, [[(14, ROWS_TEXT[:32])], [(15, ROWS_TEXT[:33])]], False, True))
@@ -349,7 +368,7 @@ def bounded(ctx, b):
         # (a mid-row code's cell may or may not be reproduced: such rows are chosen well above / below 32 either
         # way, and are not looked up by their exact text in the message)
         longs = [t for t in texts if cells(t) > 32]
-        named_exactly = [t.replace("^", "") for t in longs if "~" not in t]
+        named_exactly = [t.lstrip("/").replace("^", "").rstrip(" ") for t in longs if "~" not in t]
 
         named_exactly = [t for t in named_exactly if "\b" not in t]
 
